@@ -149,12 +149,17 @@ class Run:
         elif kind == "usucc":
             case.expectFailure("known " + self.marker(), lambda: None)
         elif kind == "multi":
-            infos = []
-            for k in subs or ():
-                try:
-                    raise self.new_exc(case, k)
-                except BaseException:
-                    infos.append(sys.exc_info())
+            def make(ks):       # a list inside the list of kinds is a nested MultipleExceptions
+                infos = []
+                for k in ks or ():
+                    try:
+                        if isinstance(k, list):
+                            raise MultipleExceptions(*make(k))
+                        raise self.new_exc(case, k)
+                    except BaseException:
+                        infos.append(sys.exc_info())
+                return infos
+            infos = make(subs)
             if infos:
                 raise MultipleExceptions(*infos)
         else:
@@ -370,6 +375,7 @@ def small_scenarios():
         first = [[mode, n, "k", P()], ["mutate", "k", P()]] if mode == "vdetail" else [[mode, n, P()]]
         conts = [[]] + [[["raise", k]] for k in KINDS] + [
             [["raise", "multi", ["fail", "error"]]], [["raise", "multi", ["error", "skip", "fail", "error"]]],
+            [["raise", "multi", ["fail", ["error", "fail"]]]], [["raise", "multi", [["error", ["fail", "error"]]]]],
             [["assertThat", [[n, P()], ["traceback", P()]]]],
             [["expectThat", [[n, P()]]], ["expectThat", [[n, P()], ["Failed expectation", P()]]]],
             [["expectThat", [["Failed expectation", P()]]], ["detail", n, P()], ["raise", "fail"]],
